@@ -266,14 +266,16 @@ func (h *c02) readerTask(r int, ops []core.Op) {
 			// the read failed because a table file could not be opened (injected): the reader gives up this snapshot;
 			// everybody else's files must stay alive all the same
 			c.Sim.Probe("read-failed-by-open-error")
-			snap.Close()
+			// (the snapshot counts as held until Close is invoked, not until it has returned: Close has scheduling
+			// points, and once the version is released a compaction may remove its files at once)
 			delete(h.held, r)
+			snap.Close()
 			continue
 		}
 		if err != nil {
 			c.Violate("C02/snapshot-read-failed", "reader %d first read: %v", r, err)
-			snap.Close()
 			delete(h.held, r)
+			snap.Close()
 			return
 		}
 		c.Oracle()
